@@ -45,6 +45,10 @@ structure Esc where
   textEdits : List (EditKey × Bytes) := []
   /-- copies of parse trees taken before commit first rewrote them (shared by reference with scratch escapers) -/
   pristine : List (String × Tree) := []
+  /-- bookkeeping for finding classification only (never read by the analysis): the static attribute value
+      prefix a memo entry was computed with, and whether a memo hit ever happened under a different prefix -/
+  memoPrefix : List (String × Bytes × Bool) := []
+  prefixReuse : Bool := false
   deriving Inhabited
 
 def alookup {β} (l : List (String × β)) (k : String) : Option β :=
@@ -107,12 +111,17 @@ def join (a b : Ctx) : Ctx := joinCore a b true
     `strings.Title` of the names — the model keeps the lower-case names (names of derived templates
     are not compared with the implementation). -/
 def mangle (c : Ctx) (name : String) : String :=
-  if c.state == .text then name
+  if c.state == .text && c.elemName == [] && c.elemNames.isEmpty then name
   else
+    let namesStr (l : List Bytes) : String := "[" ++ String.intercalate " " (l.map strOfBytes) ++ "]"
     name ++ "$htmltemplate_" ++ c.state.str ++
       (if c.delim != .none then "_" ++ c.delim.str else "") ++
       (if c.attrName != [] then "_attr" ++ strOfBytes (titleAscii c.attrName) else "") ++
-      (if c.elemName != [] then "_element" ++ strOfBytes (titleAscii c.elemName) else "")
+      (if c.elemName != [] then "_element" ++ strOfBytes (titleAscii c.elemName) else "") ++
+      (if !c.attrNames.isEmpty || !c.elemNames.isEmpty || c.scriptType != [] || c.linkRel != [] then
+        "_" ++ namesStr c.attrNames ++ "_" ++ namesStr c.elemNames ++ "_" ++ strOfBytes c.scriptType ++ "_" ++
+          strOfBytes c.linkRel
+       else "")
 
 def isPredefined (n : String) : Bool := predefinedEscapers.any fun r => strOfBytes r.2 == n
 
@@ -213,7 +222,7 @@ def escapeBranch (env : Env) : Nat → String → Esc → Ctx → NodeList → N
     -- range: re-entry check on a scratch escaper whose results are always dropped (filter = nil)
     let c0r : Out (Option Ctx) :=
       if isRange && c0.state != .error then do
-        let (_, c1) ← escapeList env f tn { output := e.output, pristine := e.pristine } c0 t
+        let (_, c1) ← escapeList env f tn { output := e.output, pristine := e.pristine, memoPrefix := e.memoPrefix } c0 t
         let j := join c0 c1
         pure (some j)
       else pure none
@@ -234,8 +243,13 @@ def escapeTree (env : Env) : Nat → Esc → Ctx → String → Out (Esc × Ctx 
     let dname := mangle c name
     let e := { e with called := if e.called.contains dname then e.called else e.called ++ [dname] }
     match alookup e.output dname with
-    | some out => .ok (e, out, dname)
+    | some out =>
+      let differs := match alookup e.memoPrefix dname with
+        | some p => p.1 != c.attrValue || p.2 != c.ambiguous
+        | none => false
+      .ok ({ e with prefixReuse := e.prefixReuse || differs }, out, dname)
     | none =>
+      let e := { e with memoPrefix := aset e.memoPrefix dname (c.attrValue, c.ambiguous) }
       match e.template env name with
       | none => .ok (e, Ctx.errorCtx .noSuchTemplate, dname)
       | some none => .ok (e, Ctx.errorCtx .noSuchTemplate, dname)   -- no parse tree: incomplete template
@@ -276,19 +290,21 @@ def escapeTemplateBody (env : Env) : Nat → Esc → Ctx → String → Option T
     match t with
     | none => .panic "nil pointer dereference: t.Tree.Root of a nil Tree"
     | some tr => do
-      let (e1, c1) ← escapeList env f tname { output := e.output, pristine := e.pristine } c tr.root
+      let (e1, c1) ← escapeList env f tname { output := e.output, pristine := e.pristine, memoPrefix := e.memoPrefix } c tr.root
       let ok := c1.state != .error && (!e1.called.contains tname || c.eq c1)
       if ok then do
         let ae ← mergeEdits e.actionEdits e1.actionEdits
         let te ← mergeEdits e.tmplEdits e1.tmplEdits
         let xe ← mergeEdits e.textEdits e1.textEdits
         let e := { pristine := e.pristine,
+                   memoPrefix := e1.memoPrefix.foldl (fun acc p => aset acc p.1 p.2) e.memoPrefix,
+                   prefixReuse := e.prefixReuse || e1.prefixReuse,
                    output := e1.output.foldl (fun acc p => aset acc p.1 p.2) e.output,
                    derived := e1.derived.foldl (fun acc p => aset acc p.1 p.2) e.derived,
                    called := e1.called.foldl (fun acc n => if acc.contains n then acc else acc ++ [n]) e.called,
                    actionEdits := ae, tmplEdits := te, textEdits := xe }
         pure (e, c1, true)
-      else pure (e, c1, false)
+      else pure ({ e with prefixReuse := e.prefixReuse || e1.prefixReuse }, c1, false)
 end
 
 /-! ### commit -/
